@@ -188,6 +188,7 @@ type Parser struct {
 	path      string
 	prefix    string
 	currFunc  string
+	currTypes []ValueType
 	usedFuncs map[string][]string // Stores which function (key) calls which functions (values).
 }
 
@@ -1430,6 +1431,7 @@ func (p *Parser) evaluateFunctionDefinition(ctx context) (Statement, error) {
 
 	// Make sure sub-statements know in which function they are currently in.
 	p.currFunc = prefixedName
+	p.currTypes = returnTypes
 
 	statements, err := p.evaluateBlock(func(statements []Statement, last bool) error {
 		var errTemp error
@@ -1470,6 +1472,7 @@ func (p *Parser) evaluateFunctionDefinition(ctx context) (Statement, error) {
 		return nil, err
 	}
 	p.currFunc = ""
+	p.currTypes = nil
 
 	return FunctionDefinition{
 		name:        prefixedName,
@@ -1489,13 +1492,37 @@ func (p *Parser) evaluateReturn(ctx context) (Statement, error) {
 	if returnToken.Type() != lexer.RETURN {
 		return nil, p.expectedKeywordError("return", returnToken)
 	}
+	valuesToken := p.peek()
 	evaluatedVals, err := p.evaluateValues(ctx)
 
 	if err != nil {
 		return nil, err
 	}
+	values := evaluatedVals.values
+	returnTypes := p.currTypes
+
+	// Every return statement (not only the last one of the function body) must fit the function's return types.
+	if len(returnTypes) == 0 {
+		return nil, p.atError("function without return types must not return a value", valuesToken)
+	} else if len(values) != len(returnTypes) {
+		return nil, p.atError(fmt.Sprintf("function requires %d return values but returns %d", len(returnTypes), len(values)), valuesToken)
+	}
+
+	for i, value := range values {
+		returnType := returnTypes[i]
+		valueType := value.ValueType()
+
+		// Like in Go, nil is a valid value for a slice.
+		if literal, ok := value.(StringLiteral); ok && literal.IsNil() && returnType.IsSlice() {
+			continue
+		}
+
+		if !valueType.Equals(returnType) {
+			return nil, p.expectedError(fmt.Sprintf("%s as return value but got %s", returnType.String(), valueType.String()), valuesToken)
+		}
+	}
 	return Return{
-		values: evaluatedVals.values,
+		values: values,
 	}, nil
 }
 
@@ -1997,8 +2024,8 @@ func (p *Parser) evaluateSingleExpression(ctx context) (Expression, error) {
 			value: integer,
 		}
 	case lexer.NIL_LITERAL:
-		p.eat()                // Eat string token.
-		expr = StringLiteral{} // nil is an empty string literal.
+		p.eat()                           // Eat string token.
+		expr = StringLiteral{isNil: true} // nil is an empty string literal.
 	case lexer.STRING_LITERAL:
 		p.eat() // Eat string token.
 		expr = StringLiteral{
